@@ -51,7 +51,7 @@ def new_pattern(pattern, shape, omit_all, W, tag="n"):
     return pfixed, pfree, entries, nfixed, nfree
 
 
-def run_paths(W, once, max_paths=64):
+def run_paths(W, once, max_paths=512):
     out = []
     for path, res in W.I.explore(once, max_paths):
         out.append((path, res))
